@@ -194,7 +194,7 @@ theorem smb_reencode (c : Cmd) (hmem : c ∈ commands) (hm : Mirror c = true) (e
 
 /-! ## the loop fragment: list fields marshalled by a `range` loop and read back by a counted loop -/
 
-/-- **Which commands the loop fragment adds**: exactly these twelve satisfy `MirrorLoops` without satisfying
+/-- **Which commands the loop fragment adds**: exactly these thirteen satisfy `MirrorLoops` without satisfying
     `Mirror`.  LockingAndxRequest: two lists of LOCKING_ANDX_RANGE64 written by `range` loops and read back by
     counted loops running to `NumberOfRequestedUnlocks` / `NumberOfRequestedLocks` through 20-byte windows;
     OpenAndxRequest, OpenAndxResponse, LockAndReadResponse, QueryInformationResponse: the fixed array `Reserved [n]USHORT`
@@ -204,6 +204,9 @@ theorem smb_reencode (c : Cmd) (hmem : c ∈ commands) (hm : Mirror c = true) (e
     WriteAndxRequest, WriteRawRequest, ReadRawRequest: `OffsetHigh` written iff non-zero as the last parameter field,
     set to zero by Unmarshal and then read under `WordCount == 14` (10 for READ_RAW), the word count the block has
     with it (12, 8 without);
+    WriteAndCloseRequest: the optional *array* `Reserved [3]ULONG`, written iff one element is non-zero, zeroed by
+    Unmarshal and then read under `WordCount == 14` (8 without; the 8-byte `LastWriteTime` in front of it counts with
+    its `fixedSize`);
     SessionSetupAndxRequest, SessionSetupAndxResponse: `Pad` read with a length computed by arithmetic
     (`UnicodePasswordLen` rounded up to even; one byte when `len(P)+3` is odd);
     WriteMpxRequest (and WriteAndxRequest): the last buffer read not followed by an advance of `offset`. -/
@@ -211,23 +214,22 @@ theorem loop_mirror_commands :
     (commands.filter (fun c => MirrorLoops c && !Mirror c)).map (·.name) =
       ["LockAndReadResponse", "LockingAndxRequest", "OpenAndxRequest", "OpenAndxResponse",
        "QueryInformationResponse", "ReadRawRequest", "SessionSetupAndxRequest",
-       "SessionSetupAndxResponse", "TransactionRequest", "WriteAndxRequest", "WriteMpxRequest",
-       "WriteRawRequest"] := by decide +kernel
+       "SessionSetupAndxResponse", "TransactionRequest", "WriteAndCloseRequest",
+       "WriteAndxRequest", "WriteMpxRequest", "WriteRawRequest"] := by decide +kernel
 
 /-- `MirrorLoops` extends `Mirror`: each of the 96 `Mirror` commands satisfies it -/
 theorem mirror_loops_extends : commands.all (fun c => !Mirror c || MirrorLoops c) = true := by decide +kernel
 
-/-- **What is still outside**: exactly these 7 commands satisfy neither predicate; for them the round trip is
+/-- **What is still outside**: exactly these 6 commands satisfy neither predicate; for them the round trip is
     decided by the correspondence runs only.  Two carry the recorded structural finding (`known_roundtrip_findings`:
     a 43-byte window for 53-byte entries); NegotiateRequest decodes `Dialects`, which reads to the end of its input
     and is not among the lawful nested types; NegotiateResponse writes and reads two null-terminated strings
     (literal terminator bytes, `rawDataContent` re-sliced); RenameRequest reads its attributes without checking the
-    error or using the count; WriteAndCloseRequest has an optional *array* (`Reserved [3]ULONG`, written iff
-    non-zero, zeroed and read under `WordCount == 14`); WriteRequest puts its buffer ahead of the parameter block. -/
+    error or using the count; WriteRequest puts its buffer ahead of the parameter block. -/
 theorem non_mirror_loops_commands :
     (commands.filter (fun c => !MirrorLoops c)).map (·.name) =
       ["FindResponse", "FindUniqueResponse", "NegotiateRequest", "NegotiateResponse",
-       "RenameRequest", "WriteAndCloseRequest", "WriteRequest"] := by decide +kernel
+       "RenameRequest", "WriteRequest"] := by decide +kernel
 
 /-- **C04, generic round trip over the loop fragment.**  As `mirror_roundtrip`, for every command whose
     regenerated programs satisfy `MirrorLoops`: the only statements outside the straight-line fragment are
@@ -280,7 +282,7 @@ private theorem loops_side (c : Cmd) (hmem : c ∈ commands) (hm : MirrorLoops c
     beq_iff_eq] at h
   exact ⟨h.1.1, h.1.2, h.2⟩
 
-/-- **C04 for the regenerated commands, loop fragment.**  Each of the 108 `MirrorLoops` command structures of this
+/-- **C04 for the regenerated commands, loop fragment.**  Each of the 109 `MirrorLoops` command structures of this
     tree round-trips every declared field and its AndX block, for all internally consistent field values and all
     initial states of the receiver that fit (`receiverFits`), with the C06 models as nested codecs. -/
 theorem smb_loops_roundtrip (c : Cmd) (hmem : c ∈ commands) (hm : MirrorLoops c = true) (env0 env : Env)
@@ -486,6 +488,23 @@ example : (match encodeCmd Manticore.SmbCodecs.std cmd_ReadRawRequest (readRawEn
     | .ok b0, .ok b5 => (match decodeCmd Manticore.SmbCodecs.std cmd_ReadRawRequest [("OffsetHigh", .n 9)] b0,
                                decodeCmd Manticore.SmbCodecs.std cmd_ReadRawRequest [("OffsetHigh", .n 9)] b5 with
         | .ok d0, .ok d5 => b0.length == 19 && d0.get "OffsetHigh" == some (.n 0) && d5.get "OffsetHigh" == some (.n 5)
+        | _, _ => false)
+    | _, _ => false) = true := by decide +kernel
+
+/-- WRITE_AND_CLOSE, both forms, into a receiver that holds stale reserved words: 8 parameter words → zeros,
+    14 words → the three values sent -/
+def writeAndCloseEnv (r : List Nat) : Env :=
+  [("FID", .n 0x1234), ("CountOfBytesToWrite", .n 2), ("WriteOffsetInBytes", .n 7), ("LastWriteTime", .t ([1, 2], [])),
+   ("Reserved", .ns r), ("Pad", .n 0), ("Data", .b [0xAA, 0xBB])]
+example : MirrorLoops cmd_WriteAndCloseRequest = true := by decide +kernel
+example : receiverFits cmd_WriteAndCloseRequest [("Reserved", .ns [9, 9, 9])] (writeAndCloseEnv [0, 0, 0]) = true := by
+  decide +kernel
+example : (match encodeCmd Manticore.SmbCodecs.std cmd_WriteAndCloseRequest (writeAndCloseEnv [0, 0, 0]),
+                 encodeCmd Manticore.SmbCodecs.std cmd_WriteAndCloseRequest (writeAndCloseEnv [1, 0, 3]) with
+    | .ok b0, .ok b3 => (match decodeCmd Manticore.SmbCodecs.std cmd_WriteAndCloseRequest [("Reserved", .ns [9, 9, 9])] b0,
+                               decodeCmd Manticore.SmbCodecs.std cmd_WriteAndCloseRequest [("Reserved", .ns [9, 9, 9])] b3 with
+        | .ok d0, .ok d3 => b0.head? == some 8 && b3.head? == some 14 &&
+            d0.get "Reserved" == some (.ns [0, 0, 0]) && d3.get "Reserved" == some (.ns [1, 0, 3])
         | _, _ => false)
     | _, _ => false) = true := by decide +kernel
 
